@@ -76,6 +76,7 @@ func genHalt(c *Ctx) error {
 		// only[k] restricts the observation to the nodes whose state is determined at this moment
 		// (replication to third nodes is asynchronous until the next `sync`)
 		var only map[int]bool
+		expectExit := map[int]bool{} // a former holder whose WAL commit was refused stops (by design)
 		states := func(what string) (pos []string) {
 			for k := 0; k < nNodes; k++ {
 				if only != nil && !only[k] {
@@ -84,7 +85,7 @@ func genHalt(c *Ctx) error {
 				}
 				st := do(fmt.Sprintf("n %d state", k))
 				pos = append(pos, posOf(st))
-				if strings.Contains(st, "exit=") {
+				if strings.Contains(st, "exit=") && !expectExit[k] {
 					c.Fail(fmt.Sprintf("history %d %s: node %d exited: %s", h, what, k, st))
 					failed = true
 				}
@@ -237,6 +238,56 @@ func genHalt(c *Ctx) error {
 				observe(what+" (primary wrote after expiry)", P, primary)
 				do(fmt.Sprintf("unhalt %d %d", rep, id))
 				observe(what+" (expired, released)", P, primary)
+			case k == 9 && nNodes == 3 && r.Bool(): // a former holder publishes while another node holds the lock
+				third := 3 - primary - rep
+				do(fmt.Sprintf("halt-ttl %d short", primary))
+				out := do(fmt.Sprintf("halt %d %d", rep, id))
+				do(fmt.Sprintf("halt-ttl %d long", primary))
+				if !strings.HasPrefix(out, "ok ") {
+					break
+				}
+				do(fmt.Sprintf("halt-expire %d", primary)) // the primary commits nothing: the first holder does not notice
+				P.restarted()
+				lockID++
+				out2 := do(fmt.Sprintf("halt %d %d", third, lockID))
+				if !strings.HasPrefix(out2, "ok ") {
+					c.Fail(fmt.Sprintf("history %d %s: halt lock not granted to the second node after the first expired: %s", h, what, out2))
+					break
+				}
+				// the former holder commits with its stale lock id
+				if R.wal {
+					R.walTx(R.randomShape(3), false, false, false)
+				} else {
+					R.journalTx(R.randomShape(3), 0, 0)
+				}
+				refusals++
+				only = map[int]bool{primary: true, third: true, rep: true}
+				expectExit[rep] = true
+				pos := states(what + " (former holder published)")
+				only = nil
+				delete(expectExit, rep)
+				if pos[primary] != strings.TrimPrefix(out2, "ok pos=") {
+					c.Fail(fmt.Sprintf("history %d %s: the primary moved to %s while node %d holds the halt lock granted at %s", h, what, pos[primary], third, out2))
+				}
+				do(fmt.Sprintf("crash %d", rep))
+				do(fmt.Sprintf("up %d", rep))
+				// the real holder commits
+				T := mkPager(third)
+				T.img, T.tok, T.wal, T.changeCtr = append([][]byte{}, P.img...), append([]string{}, P.tok...), P.wal, P.changeCtr+9000
+				T.owner = 3
+				if ok, _ := pagerStep(c, T, 4); ok {
+					forwarded++
+				}
+				only = map[int]bool{primary: true, third: true}
+				ps2 := states(what + " (holder committed)")
+				only = nil
+				record(T, ps2[third])
+				do("pause")
+				do(fmt.Sprintf("unhalt %d %d", third, lockID))
+				P.img, P.tok, P.wal, P.changeCtr = T.img, T.tok, T.wal, T.changeCtr
+				P.restarted()
+				observe(what+" (second holder released)", P, primary)
+				sig.WriteString(",stale-vs-holder")
 			default: // primary change while a halt is held (3 nodes: the third node takes over)
 				if nNodes < 3 {
 					continue
